@@ -866,5 +866,20 @@ class ConsumerGroup(Coordinator):
         This waits for any ongoing processing to complete and commits offsets.
         It may take some time.
         """
-        yield self.shutdown_consumers()
+        if self._start_d is None:
+            raise RestopError("Shutdown called on non-running coordinator")
+        if self._stopping:
+            raise RestopError("Shutdown called more than once.")
+        # Waiting for the consumers may take a while: nothing may (re)join the
+        # group in the meantime, so the coordinator counts as stopping from
+        # here on and a scheduled rejoin is called off.
+        self._stopping = True
+        if self._rejoin_wait_dc:
+            self._rejoin_wait_dc.cancel()
+            self._rejoin_wait_dc = None
+        try:
+            yield self.shutdown_consumers()
+        finally:
+            # Coordinator.stop() does its own bookkeeping, starting here
+            self._stopping = False
         yield super(ConsumerGroup, self).stop(errback_result=errback_result)
